@@ -2,9 +2,11 @@ package c07
 
 import (
 	"fmt"
+	"reflect"
 	"sort"
 	"strings"
 
+	"github.com/ogen-go/ogen/jsonpointer"
 	"github.com/ogen-go/ogen/openapi"
 
 	"verifharness/internal/jsonv"
@@ -16,6 +18,78 @@ type Direct struct {
 	HeaderLeaks []string // "<where>: header keyed X-B is named X-A"
 	OpsMissing  []string // operations the document declares but the API lacks
 	OpsExtra    []string // operations of the API the document does not declare (or declares fewer times)
+	// two different reference keys (document URL + pointer text) in one API that denote the same location once
+	// the pointer text is percent-decoded: one target known to the parser under two identities
+	RefKeyTwins []string
+}
+
+var refKeyT = reflect.TypeOf(jsonpointer.RefKey{})
+
+func collectRefKeys(v reflect.Value, seen map[uintptr]bool, out map[jsonpointer.RefKey]bool) {
+	if !v.IsValid() {
+		return
+	}
+	if v.Type() == refKeyT {
+		k := v.Interface().(jsonpointer.RefKey)
+		if !k.IsZero() {
+			out[k] = true
+		}
+		return
+	}
+	switch v.Kind() {
+	case reflect.Ptr:
+		if v.IsNil() || seen[v.Pointer()] {
+			return
+		}
+		seen[v.Pointer()] = true
+		collectRefKeys(v.Elem(), seen, out)
+	case reflect.Interface:
+		if !v.IsNil() {
+			collectRefKeys(v.Elem(), seen, out)
+		}
+	case reflect.Struct:
+		for i := 0; i < v.NumField(); i++ {
+			if v.Type().Field(i).IsExported() && !fromLocationPkg(v.Type().Field(i).Type) {
+				collectRefKeys(v.Field(i), seen, out)
+			}
+		}
+	case reflect.Map:
+		it := v.MapRange()
+		for it.Next() {
+			collectRefKeys(it.Value(), seen, out)
+		}
+	case reflect.Slice, reflect.Array:
+		if v.Kind() == reflect.Slice && v.Type().Elem().Kind() == reflect.Uint8 {
+			return
+		}
+		for i := 0; i < v.Len(); i++ {
+			collectRefKeys(v.Index(i), seen, out)
+		}
+	}
+}
+
+// RefKeyTwins lists pairs of distinct keys that are the same location after percent-decoding the pointer.
+func RefKeyTwins(api *openapi.API) []string {
+	keys := map[jsonpointer.RefKey]bool{}
+	collectRefKeys(reflect.ValueOf(api), map[uintptr]bool{}, keys)
+	canon := map[string][]string{}
+	for k := range keys {
+		p, err := pctDecode(strings.TrimPrefix(k.Ptr, "#"))
+		if err != nil {
+			p = k.Ptr
+		}
+		c := k.Loc + "#" + p
+		canon[c] = append(canon[c], k.Loc+k.Ptr)
+	}
+	var out []string
+	for c, ks := range canon {
+		if len(ks) > 1 {
+			sort.Strings(ks)
+			out = append(out, fmt.Sprintf("%q is known as %q", c, ks))
+		}
+	}
+	sort.Strings(out)
+	return out
 }
 
 func (d *Direct) Poisoned() bool {
